@@ -29,6 +29,9 @@ type Broker struct {
 	sizes       map[int]int // payload size -> tag of every message published to the client
 	// Mute lists packet types whose answers are withheld.
 	Mute map[string]bool
+	// IDBase: the broker's own packet identifiers start above this value (any 16-bit identifier is the broker's to use,
+	// also one that equals an identifier the client has in flight in the other direction)
+	IDBase int
 }
 
 func NewBroker(w *World) *Broker {
@@ -211,7 +214,7 @@ func (b *Broker) Publish(c *Conn, qos int, topic string, payload []byte, retain 
 	id := 0
 	if qos > 0 {
 		// the lowest identifier that is not in flight: identifiers are reused after completion
-		for id = 1; ; id++ {
+		for id = b.IDBase + 1; ; id++ {
 			busy := false
 			for _, m := range b.out {
 				if m.ID == id && m.State != "done" {
